@@ -53,8 +53,10 @@ fn step_from(v: &Value) -> Option<Step17> {
     Some(Step17::Advance(v.get("advance")?.as_u64()?))
 }
 
-const END_KINDS: [&str; 12] = [
+const END_KINDS: [&str; 16] = [
     "close", "quit", "quitq", "close-mid-header", "close-mid-body", "bad-magic", "oversized-then-close", "idle", "reset", "reset-mid-request", "unknown-opcode", "close-after-work",
+    // silence (no close) in every buffering state of the connection
+    "idle-mid-header", "idle-mid-body", "idle-after-work", "idle-with-partial-request-behind-a-complete-one",
 ];
 
 struct Client17 {
@@ -248,6 +250,34 @@ impl World17 {
                         // nothing is sent any more; the server's idle timeout has to fire
                         self.ring.advance_ms(2 * self.timeout_ms + 1000);
                     }
+                    "idle-mid-header" => {
+                        let b = Request::bare(op::NOOP).encode();
+                        self.send(i, &b[..11]);
+                        self.ring.advance_ms(2 * self.timeout_ms + 1000);
+                    }
+                    "idle-mid-body" => {
+                        let b = Request::store(op::SET, b"partial", &[7u8; 40], 0, 0, 0).encode();
+                        self.send(i, &b[..40]);
+                        self.ring.advance_ms(2 * self.timeout_ms + 1000);
+                    }
+                    "idle-after-work" => {
+                        let mut r = Request::store(op::SET, format!("k{}", i).as_bytes(), b"v", 0, 0, 0);
+                        r.opaque = 7;
+                        let b = r.encode();
+                        self.send(i, &b);
+                        self.ring.advance_ms(2 * self.timeout_ms + 1000);
+                    }
+                    "idle-with-partial-request-behind-a-complete-one" => {
+                        // one write: a complete request and the beginning of the next; then silence
+                        let mut r = Request::bare(op::NOOP);
+                        r.opaque = 7;
+                        let mut b = r.encode();
+                        let next = Request::store(op::SET, b"partial", &[7u8; 40], 0, 0, 0).encode();
+                        let cut = [1usize, 11, 24, 40][i % 4];
+                        b.extend_from_slice(&next[..cut]);
+                        self.send(i, &b);
+                        self.ring.advance_ms(2 * self.timeout_ms + 1000);
+                    }
                     "reset" => self.ring.rst(i),
                     "reset-mid-request" => {
                         let b = Request::store(op::SET, b"partial", &[7u8; 40], 0, 0, 0).encode();
@@ -266,7 +296,7 @@ impl World17 {
                     self.viol("ended-connection-still-held", format!("connection {} ended by '{}' but the server still holds it (slot not returned)", i, how));
                 }
                 // the client side is gone too (it stops reading)
-                if !view.srv_dropped && how != "idle" {
+                if !view.srv_dropped && !how.starts_with("idle") {
                     // a waiting connection that the client closed stays in the accept path until a slot frees; nothing to do
                 }
                 self.clients[i].open = !view.srv_dropped;
@@ -393,7 +423,7 @@ fn gen_c17(run_seed: u64, tier: Tier) -> (Knobs, Vec<Step17>) {
             let i = live.remove(k);
             let how = END_KINDS[rng.usize(END_KINDS.len())];
             steps.push(Step17::End(i, how.to_string()));
-            if how == "idle" {
+            if how.starts_with("idle") {
                 // everybody else timed out as well
                 live.clear();
             }
